@@ -426,26 +426,46 @@ func (c *client) failAllAndStopReadLoop(err error) {
 	c.readLoopRunning = false
 }
 
-func (c *client) handleWorkDoneMessage(runtimeMessage DecodedRuntimeMessage) {
-	var doneMessage WorkDoneMessage
-	var result ExecutionResult
-	if err := c.decMode.Unmarshal(runtimeMessage.RawMessageData, &doneMessage); err != nil {
-		c.logger.Errorf("Failed to decode work done message (%v) for run ID '%s' ", err, runtimeMessage.RunID)
-		result = NewErrorExecutionResult(fmt.Errorf("failed to decode work done message (%w)", err))
-	} else {
-		result = c.processWorkDone(runtimeMessage.RunID, doneMessage)
-	}
-	c.mutex.Lock()
-	c.sendExecutionResult(runtimeMessage.RunID, result)
-	c.mutex.Unlock()
+// streamBroken ends the read loop over a message that arrived complete but makes no sense: a message type that does
+// not exist, a payload that does not decode as what the message type says, a result for a run nobody is waiting for.
+// A correct peer sends none of these, so the stream is damaged, and the damage is not confined to this message: a
+// changed message type or run ID means that the message really was some waiting run's result, and a changed length
+// inside a payload makes it swallow the messages behind it. Every waiting call fails rather than waiting for a result
+// that has been lost.
+func (c *client) streamBroken(err error) {
+	c.logger.Errorf("ATP client for steps '%s' cannot use a message of the plugin: %v", c.getRunningStepIDs(), err)
+	c.failAllAndStopReadLoop(err)
 }
 
-func (c *client) handleSignalMessage(runtimeMessage DecodedRuntimeMessage) {
+// Returns true if the message shows that the stream is broken, and the read loop has been stopped.
+func (c *client) handleWorkDoneMessage(runtimeMessage DecodedRuntimeMessage) bool {
+	var doneMessage WorkDoneMessage
+	if err := c.decMode.Unmarshal(runtimeMessage.RawMessageData, &doneMessage); err != nil {
+		c.streamBroken(
+			fmt.Errorf("failed to decode work done message for run ID '%s' (%w)", runtimeMessage.RunID, err))
+		return true
+	}
+	result := c.processWorkDone(runtimeMessage.RunID, doneMessage)
+	c.mutex.Lock()
+	_, waiting := c.runningStepResultEntries[runtimeMessage.RunID]
+	if waiting {
+		c.sendExecutionResult(runtimeMessage.RunID, result)
+	}
+	c.mutex.Unlock()
+	if !waiting {
+		c.streamBroken(fmt.Errorf("received a result for run ID '%s', which is not running", runtimeMessage.RunID))
+		return true
+	}
+	return false
+}
+
+// Returns true if the message shows that the stream is broken, and the read loop has been stopped.
+func (c *client) handleSignalMessage(runtimeMessage DecodedRuntimeMessage) bool {
 	var signalMessage SignalMessage
 	if err := c.decMode.Unmarshal(runtimeMessage.RawMessageData, &signalMessage); err != nil {
-		c.logger.Errorf("ATP client for run ID '%s' failed to decode signal message: %v",
-			runtimeMessage.RunID, err)
-		return
+		c.streamBroken(
+			fmt.Errorf("failed to decode signal message for run ID '%s' (%w)", runtimeMessage.RunID, err))
+		return true
 	}
 	c.mutex.Lock()
 	signalChannel, found := c.runningStepEmittedSignalChannels[runtimeMessage.RunID]
@@ -458,7 +478,7 @@ func (c *client) handleSignalMessage(runtimeMessage DecodedRuntimeMessage) {
 			"Step with run ID '%s' sent signal '%s'. Ignoring; signal handling is not implemented "+
 				"(emittedSignals is nil).",
 			runtimeMessage.RunID, signalMessage.SignalID)
-		return
+		return false
 	}
 	c.logger.Debugf("Got signal from step with run ID '%s' with ID '%s'", runtimeMessage.RunID,
 		signalMessage.SignalID)
@@ -467,25 +487,15 @@ func (c *client) handleSignalMessage(runtimeMessage DecodedRuntimeMessage) {
 	case <-c.context.Done():
 		// Close was called. The caller may have stopped listening; do not keep the read loop, and Close with it, waiting.
 	}
+	return false
 }
 
 // Returns true if the error is fatal.
 func (c *client) handleErrorMessage(runtimeMessage DecodedRuntimeMessage) bool {
 	var errMessage ErrorMessage
 	if err := c.decMode.Unmarshal(runtimeMessage.RawMessageData, &errMessage); err != nil {
-		c.logger.Errorf("Step with run ID '%s' failed to decode error message: %v",
-			runtimeMessage.RunID, err)
-		// The content of the error is lost, so it cannot be known whether it was fatal. Do not leave the
-		// affected callers waiting for a result that may never come.
-		decodeErr := fmt.Errorf("failed to decode error message for run ID %q (%w)", runtimeMessage.RunID, err)
-		if runtimeMessage.RunID == "" {
-			c.sendErrorToAll(decodeErr)
-		} else {
-			c.mutex.Lock()
-			c.sendExecutionResult(runtimeMessage.RunID, NewErrorExecutionResult(decodeErr))
-			c.mutex.Unlock()
-		}
-		return false
+		c.streamBroken(fmt.Errorf("failed to decode error message for run ID %q (%w)", runtimeMessage.RunID, err))
+		return true
 	}
 	errorMessageStr := errMessage.ToString(runtimeMessage.RunID)
 	resultMsg := fmt.Errorf("step with run ID %q sent error message: %s", runtimeMessage.RunID, errorMessageStr)
@@ -543,19 +553,21 @@ func (c *client) executeReadLoop(cborReader *cbor.Decoder) {
 		}
 		switch runtimeMessage.MessageID {
 		case MessageTypeWorkDone:
-			c.handleWorkDoneMessage(runtimeMessage)
+			if c.handleWorkDoneMessage(runtimeMessage) {
+				return // Fatal
+			}
 		case MessageTypeSignal:
-			c.handleSignalMessage(runtimeMessage)
+			if c.handleSignalMessage(runtimeMessage) {
+				return // Fatal
+			}
 		case MessageTypeError:
 			if c.handleErrorMessage(runtimeMessage) {
 				return // Fatal
 			}
 		default:
-			c.logger.Warningf(
-				"Step with run ID '%s' sent unknown message type: %d",
-				runtimeMessage.RunID,
-				runtimeMessage.MessageID,
-			)
+			c.streamBroken(fmt.Errorf("the plugin sent a message of the unknown type %d for run ID '%s'",
+				runtimeMessage.MessageID, runtimeMessage.RunID))
+			return
 		}
 		// The non-error exit condition is having no more entries remaining.
 		if c.stopReadLoopIfIdle() {
